@@ -65,6 +65,10 @@ def _get_string_additions(module_context, start_leaf):
         was_addition = True
         for child_node in reversed(node.children[:node.children.index(addition)]):
             if was_addition:
+                if child_node.type in ('operator', 'keyword'):
+                    # It's a unary plus (`x = +'`), there is nothing in front
+                    # of it that could be added.
+                    break
                 was_addition = False
                 yield child_node
                 continue
